@@ -122,6 +122,13 @@ Contains(l, n) ==
   /\ ret' = IF n \in Range(seq[l]) THEN 1 ELSE 0
   /\ UNCHANGED <<seq, head, tail, next, itl, itp>> /\ Tick
 
+(* ---- the list_t object itself is copied to other storage (struct assignment) while no iterator refers to it: ---- *)
+(* ---- a list_t only refers to nodes, so nothing observable changes, whatever emptied or filled the list before ---- *)
+Relocate(l) ==
+  /\ itl # l
+  /\ ret' = 0
+  /\ UNCHANGED <<seq, head, tail, next, itl, itp>> /\ Tick
+
 (* ---- list_contains(list, node, &iter): leaves the iterator at the node (or past the end) ---- *)
 ContainsIter(l, n) ==
   /\ ret' = IF n \in Range(seq[l]) THEN 1 ELSE 0
